@@ -12,7 +12,7 @@ FAM = Family(
                "crash at any step, torn header write, byte corruption of a header slot or body block, truncation, "
                "extension, other key); the harness runs the real cache.Create/Write/Close with hooks that copy the on-disk "
                "file at every protocol step, builds every concrete image of the history's fault class (every byte offset "
-               "x masks 01/80/FF of the header, every offset (quick: ~300 sampled per region) of the body, every "
+               "x every single-bit mask and FF of the header, masks 01/20/80/FF, every offset (quick: ~300 sampled per region) of the body, every "
                "truncation length, every torn-header prefix) and calls the real cache.Open on each"),
     assumptions=["SHA-1 is collision resistant and never yields the all-zero digest (abstract injective digest in the spec)",
                  "bodies: empty, 1 B, 101 B, 70 kB incompressible (several deflate blocks); every other 3-block body is trimmed so "
